@@ -324,6 +324,30 @@ class CallMixin:
             if isinstance(a0, Num):
                 return self.num_as_list(a0)
             return a0
+        if d in ("builtins.enumerate", "builtins.zip"):
+            seqs = [self.force(a, frame, node) for a in args]
+            if all(self.as_items(q, frame, node) is not None for q in seqs if not isinstance(q, ObjV)) and not any(isinstance(q, ObjV) for q in seqs):
+                cols = [self.as_items(q, frame, node) for q in seqs]
+                nmin = min(len(c) for c in cols)
+                if d.endswith("enumerate"):
+                    start = kwargs.get("start", args[1] if len(args) > 1 else Num(0))
+                    return ListV("lit", items=[TupV([Num(Rat.const(i) + start.r), cols[0][i]]) for i in range(len(cols[0]))])
+                return ListV("lit", items=[TupV([c[i] for c in cols]) for i in range(nmin)])
+            idx = self.fresh_bound()
+            try:
+                elems = []
+                n = None
+                for q in (seqs[:1] if d.endswith("enumerate") else seqs):
+                    elems.append(self.index(q, Num(Rat.atom(idx)), frame, node) if not isinstance(q, ObjV) else
+                                 self.call_function(FuncV("repo", func=q.cls.methods["__getitem__"], self_val=q), [Num(Rat.atom(idx))], {}, frame, node, force_inline=True))
+                    ln = self.length(q, frame, node)
+                    n = ln if n is None else n   # zip of equally long series (the usual case); the first length is used
+            finally:
+                self.release_bound()
+            if d.endswith("enumerate"):
+                start = kwargs.get("start", args[1] if len(args) > 1 else Num(0))
+                return ListV("fam", idx=idx, lo=Rat.const(0), hi=n, elem=TupV([Num(Rat.atom(idx) + start.r), elems[0]]))
+            return ListV("fam", idx=idx, lo=Rat.const(0), hi=n, elem=TupV(elems))
         if d == "builtins.set":
             a0 = self.force(args[0], frame, node) if args else ListV("lit", items=[])
             return ListV("opaque", path="set(%s)" % key_str(val_key(a0)), ty=ANY, is_set=True)
